@@ -24,17 +24,20 @@ Definition wk_name (k : wk) : string :=
              | WTuple => "Tuple" | WArray => "Array" end.
 Definition cell := (wk * term)%type.
 
-(* Term.wrap_constant(val) with wrapper_cls absent — this is what _apply_terms calls (self.wrap_constant(value)):
-   the class's _wrapper_cls is NOT used for inserted values *)
-Definition wrap_constant (v : pyval) : cell :=
+(* Term.wrap_constant(val, wrapper_cls): a Term passes through, None becomes NullValue, everything else is wrapped.
+   [wrap_plain] is the call without wrapper_cls (the items of a nested Tuple / Array); [wrap_constant c] is what
+   _apply_terms does since e7a5678: wrapper_cls = the class's _wrapper_cls (SQLLiteValueWrapper for SQLLiteQuery) *)
+Definition wrap_with (sqlite : bool) (v : pyval) : cell :=
   match v with
   | VTerm t => (WTerm, t)
   | VNone => (WNull, TLit "NULL" None)
-  | VStr s => (WValue, TValS s None)
-  | VInt z => (WValue, TValI z None)
-  | VBool b => (WValue, TValB b false None)
-  | VFloat x => (WValue, TValRaw x None)
+  | VStr s => (if sqlite then WSqlite else WValue, TValS s None)
+  | VInt z => (if sqlite then WSqlite else WValue, TValI z None)
+  | VBool b => (if sqlite then WSqlite else WValue, TValB b sqlite None)
+  | VFloat x => (if sqlite then WSqlite else WValue, TValRaw x None)
   end.
+Definition wrap_plain (v : pyval) : cell := wrap_with false v.
+Definition wrap_constant (c : cls) (v : pyval) : cell := wrap_with (cls_sqlite_bool c) v.
 
 (* set(): self._wrapper_cls(value) — unconditionally, also around a Term (ValueWrapper(Term) renders the term) *)
 Definition wrap_set (c : cls) (v : pyval) : cell :=
@@ -138,11 +141,11 @@ Fixpoint utf8_chars (s : string) : list string :=
 Definition tl_of (l : list term) : tlist := fold_right TCons TNil l.
 
 (* one value of a single-row call: value if isinstance(value, Term) else self.wrap_constant(value) *)
-Definition wrap_arg (a : arg) : res cell :=
+Definition wrap_arg (c : cls) (a : arg) : res cell :=
   match a with
-  | AVal v => Ok (wrap_constant v)
-  | ASeq SqTuple l => Ok (WTuple, TTuple (tl_of (map (fun v => snd (wrap_constant v)) l)) None)
-  | ASeq SqList l => Ok (WArray, TArray (tl_of (map (fun v => snd (wrap_constant v)) l)) None)
+  | AVal v => Ok (wrap_constant c v)
+  | ASeq SqTuple l => Ok (WTuple, TTuple (tl_of (map (fun v => snd (wrap_plain v)) l)) None)
+  | ASeq SqList l => Ok (WArray, TArray (tl_of (map (fun v => snd (wrap_plain v)) l)) None)
   | ASeq SqSet _ => Err "unmodelled"       (* ValueWrapper(set): str(set) is not modelled *)
   end.
 (* `for value in values` over one argument of a several-rows call *)
@@ -154,17 +157,17 @@ Definition iter_arg (a : arg) : res (list pyval) :=
   end.
 
 (* the rows one insert-like call contributes: `if not isinstance(terms[0], (list, tuple, set)): terms = [terms]` *)
-Definition arg_rows (args : list arg) : res (list (list cell)) :=
+Definition arg_rows (c : cls) (args : list arg) : res (list (list cell)) :=
   match args with
   | [] => Ok []
-  | AVal _ :: _ => match mapM wrap_arg args with Ok row => Ok [row] | Err e => Err e end
-  | ASeq _ _ :: _ => match mapM iter_arg args with Ok rows => Ok (map (map wrap_constant) rows) | Err e => Err e end
+  | AVal _ :: _ => match mapM (wrap_arg c) args with Ok row => Ok [row] | Err e => Err e end
+  | ASeq _ _ :: _ => match mapM iter_arg args with Ok rows => Ok (map (map (wrap_constant c)) rows) | Err e => Err e end
   end.
 
 Definition apply_terms (args : list arg) (st : dstate) : res dstate :=
   match d_into st with
   | None => Err "AttributeError"
-  | Some _ => match arg_rows args with
+  | Some _ => match arg_rows (d_cls st) args with
               | Ok rows => Ok (set_values st (d_values st ++ rows))
               | Err e => Err e end
   end.
@@ -370,11 +373,11 @@ Inductive dml_ast :=
 | ADelete (tbl : string) (wh : option string).
 
 (* the token an inserted / assigned Python value is written as *)
-Definition value_tok_ins (v : pyval) : lit :=
+Definition value_tok_ins (c : cls) (v : pyval) : lit :=
   match v with
   | VStr s => LStr s
   | VInt z => LBare (Z_to_string z)
-  | VBool b => LBare (if b then "true" else "false")
+  | VBool b => LBare (if cls_sqlite_bool c then (if b then "1" else "0") else (if b then "true" else "false"))
   | VNone => LBare "NULL"
   | VFloat x => LBare x
   | VTerm _ => LBare ""
@@ -691,7 +694,7 @@ Definition engine_lex (s : string) : string := strip_comments LOut s.
 (*    value in the VALUES position of an INSERT / in the SET-value position of an UPDATE                               *)
 (* ------------------------------------------------------------------------------------------------ *)
 Definition ins_value_ctx (c : cls) : ctx :=
-  set_subq (set_wa (set_wn (kc (defaults c (top_ctx c))) false) true) true.
+  set_subq (set_wa (set_wn (kc (defaults c (top_ctx c))) false) false) true.
 Definition ins_value_res (c : cls) (v : term) : res string :=
   render (ins_value_ctx c) (map_tref (resolve_tref []) v).
 Definition set_value_ctx (c : cls) (tbl : tref) (w : option term) : ctx :=
